@@ -48,6 +48,8 @@ type op struct {
 	f    func(g, i int)
 	solo bool // only paired with itself (wrappers)
 	slow bool // blocks until a short context deadline: fewer iterations
+	// custom scenarios drive their own goroutines (rounds of a prepared schedule); only paired with themselves
+	custom func(rounds int)
 }
 
 type env struct {
@@ -366,33 +368,105 @@ func wrappersEnv() env {
 	}
 	bg := context.Background()
 	return env{typ: t, ops: []op{
-		mk("Worker.Lock", func(n *int) func() { w := fun.Worker(func(context.Context) error { *n++; return nil }).Lock(); return func() { _ = w(bg) } }),
-		mk("Worker.WithLock", func(n *int) func() { w := fun.Worker(func(context.Context) error { *n++; return nil }).WithLock(&sync.Mutex{}); return func() { _ = w(bg) } }),
-		mk("Worker.Once", func(n *int) func() { w := fun.Worker(func(context.Context) error { *n++; return errors.New("x") }).Once(); return func() { _ = w(bg) } }),
-		mk("Worker.Limit", func(n *int) func() { w := fun.Worker(func(context.Context) error { *n++; return errors.New("x") }).Limit(5); return func() { _ = w(bg) } }),
-		mk("Worker.TTL", func(n *int) func() { w := fun.Worker(func(context.Context) error { *n++; return errors.New("x") }).TTL(time.Millisecond); return func() { _ = w(bg) } }),
-		mk("Operation.Lock", func(n *int) func() { w := fun.Operation(func(context.Context) { *n++ }).Lock(); return func() { w(bg) } }),
-		mk("Operation.WithLock", func(n *int) func() { w := fun.Operation(func(context.Context) { *n++ }).WithLock(&sync.Mutex{}); return func() { w(bg) } }),
-		mk("Operation.Once", func(n *int) func() { w := fun.Operation(func(context.Context) { *n++ }).Once(); return func() { w(bg) } }),
+		mk("Worker.Lock", func(n *int) func() {
+			w := fun.Worker(func(context.Context) error { *n++; return nil }).Lock()
+			return func() { _ = w(bg) }
+		}),
+		mk("Worker.WithLock", func(n *int) func() {
+			w := fun.Worker(func(context.Context) error { *n++; return nil }).WithLock(&sync.Mutex{})
+			return func() { _ = w(bg) }
+		}),
+		mk("Worker.Once", func(n *int) func() {
+			w := fun.Worker(func(context.Context) error { *n++; return errors.New("x") }).Once()
+			return func() { _ = w(bg) }
+		}),
+		mk("Worker.Limit", func(n *int) func() {
+			w := fun.Worker(func(context.Context) error { *n++; return errors.New("x") }).Limit(5)
+			return func() { _ = w(bg) }
+		}),
+		mk("Worker.TTL", func(n *int) func() {
+			w := fun.Worker(func(context.Context) error { *n++; return errors.New("x") }).TTL(time.Millisecond)
+			return func() { _ = w(bg) }
+		}),
+		mk("Operation.Lock", func(n *int) func() {
+			w := fun.Operation(func(context.Context) { *n++ }).Lock()
+			return func() { w(bg) }
+		}),
+		mk("Operation.WithLock", func(n *int) func() {
+			w := fun.Operation(func(context.Context) { *n++ }).WithLock(&sync.Mutex{})
+			return func() { w(bg) }
+		}),
+		mk("Operation.Once", func(n *int) func() {
+			w := fun.Operation(func(context.Context) { *n++ }).Once()
+			return func() { w(bg) }
+		}),
 		mk("Operation.Limit", func(n *int) func() { w := fun.Operation(func(context.Context) {}).Limit(5); return func() { w(bg) } }),
-		mk("Operation.TTL", func(n *int) func() { w := fun.Operation(func(context.Context) { *n++ }).TTL(time.Millisecond); return func() { w(bg) } }),
-		mk("Producer.Lock", func(n *int) func() { w := fun.Producer[int](func(context.Context) (int, error) { *n++; return *n, nil }).Lock(); return func() { _, _ = w(bg) } }),
-		mk("Producer.WithLock", func(n *int) func() { w := fun.Producer[int](func(context.Context) (int, error) { *n++; return *n, nil }).WithLock(&sync.Mutex{}); return func() { _, _ = w(bg) } }),
-		mk("Producer.Once", func(n *int) func() { w := fun.Producer[int](func(context.Context) (int, error) { *n++; return *n, nil }).Once(); return func() { _, _ = w(bg) } }),
-		mk("Producer.Limit", func(n *int) func() { w := fun.Producer[int](func(context.Context) (int, error) { *n++; return *n, nil }).Limit(5); return func() { _, _ = w(bg) } }),
-		mk("Producer.TTL", func(n *int) func() { w := fun.Producer[int](func(context.Context) (int, error) { *n++; return *n, nil }).TTL(time.Millisecond); return func() { _, _ = w(bg) } }),
-		mk("Processor.Lock", func(n *int) func() { w := fun.Processor[int](func(context.Context, int) error { *n++; return nil }).Lock(); return func() { _ = w(bg, 1) } }),
-		mk("Processor.WithLock", func(n *int) func() { w := fun.Processor[int](func(context.Context, int) error { *n++; return nil }).WithLock(&sync.Mutex{}); return func() { _ = w(bg, 1) } }),
-		mk("Processor.Once", func(n *int) func() { w := fun.Processor[int](func(context.Context, int) error { *n++; return errors.New("x") }).Once(); return func() { _ = w(bg, 1) } }),
-		mk("Processor.Limit", func(n *int) func() { w := fun.Processor[int](func(context.Context, int) error { *n++; return errors.New("x") }).Limit(5); return func() { _ = w(bg, 1) } }),
-		mk("Processor.TTL", func(n *int) func() { w := fun.Processor[int](func(context.Context, int) error { *n++; return errors.New("x") }).TTL(time.Millisecond); return func() { _ = w(bg, 1) } }),
+		mk("Operation.TTL", func(n *int) func() {
+			w := fun.Operation(func(context.Context) { *n++ }).TTL(time.Millisecond)
+			return func() { w(bg) }
+		}),
+		mk("Producer.Lock", func(n *int) func() {
+			w := fun.Producer[int](func(context.Context) (int, error) { *n++; return *n, nil }).Lock()
+			return func() { _, _ = w(bg) }
+		}),
+		mk("Producer.WithLock", func(n *int) func() {
+			w := fun.Producer[int](func(context.Context) (int, error) { *n++; return *n, nil }).WithLock(&sync.Mutex{})
+			return func() { _, _ = w(bg) }
+		}),
+		mk("Producer.Once", func(n *int) func() {
+			w := fun.Producer[int](func(context.Context) (int, error) { *n++; return *n, nil }).Once()
+			return func() { _, _ = w(bg) }
+		}),
+		mk("Producer.Limit", func(n *int) func() {
+			w := fun.Producer[int](func(context.Context) (int, error) { *n++; return *n, nil }).Limit(5)
+			return func() { _, _ = w(bg) }
+		}),
+		mk("Producer.TTL", func(n *int) func() {
+			w := fun.Producer[int](func(context.Context) (int, error) { *n++; return *n, nil }).TTL(time.Millisecond)
+			return func() { _, _ = w(bg) }
+		}),
+		mk("Processor.Lock", func(n *int) func() {
+			w := fun.Processor[int](func(context.Context, int) error { *n++; return nil }).Lock()
+			return func() { _ = w(bg, 1) }
+		}),
+		mk("Processor.WithLock", func(n *int) func() {
+			w := fun.Processor[int](func(context.Context, int) error { *n++; return nil }).WithLock(&sync.Mutex{})
+			return func() { _ = w(bg, 1) }
+		}),
+		mk("Processor.Once", func(n *int) func() {
+			w := fun.Processor[int](func(context.Context, int) error { *n++; return errors.New("x") }).Once()
+			return func() { _ = w(bg, 1) }
+		}),
+		mk("Processor.Limit", func(n *int) func() {
+			w := fun.Processor[int](func(context.Context, int) error { *n++; return errors.New("x") }).Limit(5)
+			return func() { _ = w(bg, 1) }
+		}),
+		mk("Processor.TTL", func(n *int) func() {
+			w := fun.Processor[int](func(context.Context, int) error { *n++; return errors.New("x") }).TTL(time.Millisecond)
+			return func() { _ = w(bg, 1) }
+		}),
 		mk("Handler.Lock", func(n *int) func() { w := fun.Handler[int](func(int) { *n++ }).Lock(); return func() { w(1) } }),
-		mk("Handler.WithLock", func(n *int) func() { w := fun.Handler[int](func(int) { *n++ }).WithLock(&sync.Mutex{}); return func() { w(1) } }),
+		mk("Handler.WithLock", func(n *int) func() {
+			w := fun.Handler[int](func(int) { *n++ }).WithLock(&sync.Mutex{})
+			return func() { w(1) }
+		}),
 		mk("Handler.Once", func(n *int) func() { w := fun.Handler[int](func(int) { *n++ }).Once(); return func() { w(1) } }),
-		mk("Future.Lock", func(n *int) func() { w := fun.Future[int](func() int { *n++; return *n }).Lock(); return func() { _ = w() } }),
-		mk("Future.WithLock", func(n *int) func() { w := fun.Future[int](func() int { *n++; return *n }).WithLock(&sync.Mutex{}); return func() { _ = w() } }),
-		mk("Future.Limit", func(n *int) func() { w := fun.Future[int](func() int { *n++; return *n }).Limit(5); return func() { _ = w() } }),
-		mk("Future.TTL", func(n *int) func() { w := fun.Future[int](func() int { *n++; return *n }).TTL(time.Millisecond); return func() { _ = w() } }),
+		mk("Future.Lock", func(n *int) func() {
+			w := fun.Future[int](func() int { *n++; return *n }).Lock()
+			return func() { _ = w() }
+		}),
+		mk("Future.WithLock", func(n *int) func() {
+			w := fun.Future[int](func() int { *n++; return *n }).WithLock(&sync.Mutex{})
+			return func() { _ = w() }
+		}),
+		mk("Future.Limit", func(n *int) func() {
+			w := fun.Future[int](func() int { *n++; return *n }).Limit(5)
+			return func() { _ = w() }
+		}),
+		mk("Future.TTL", func(n *int) func() {
+			w := fun.Future[int](func() int { *n++; return *n }).TTL(time.Millisecond)
+			return func() { _ = w() }
+		}),
 	}}
 }
 
@@ -437,24 +511,121 @@ func brokerEnv(kind string) env {
 	}}
 }
 
+// limitExec behind Worker/Processor/Producer/Future .Limit(n): n in {2,3,4}, n+2 goroutines released
+// together by a barrier, each calling the wrapper once; a fresh wrapper every round.  Several
+// PERMITTED runs then come from different goroutines with nothing but the wrapper between them.
+func limitRounds(build func(n int) func()) func(rounds int) {
+	return func(rounds int) {
+		for r := 0; r < rounds; r++ {
+			n := 2 + r%3
+			call := build(n)
+			var wg sync.WaitGroup
+			start := make(chan struct{})
+			for g := 0; g < n+2; g++ {
+				wg.Add(1)
+				go func() { defer wg.Done(); <-start; call() }()
+			}
+			close(start)
+			wg.Wait()
+		}
+	}
+}
+
+func limitEnv() env {
+	bg := context.Background()
+	mk := func(name string, build func(n int) func()) op {
+		return op{name: name, sig: "limitExec", custom: limitRounds(build)}
+	}
+	return env{typ: "Limit", ops: []op{
+		mk("Worker.Limit", func(n int) func() {
+			c := 0
+			w := fun.Worker(func(context.Context) error { c++; return fmt.Errorf("run %d", c) }).Limit(n)
+			return func() { _ = w(bg) }
+		}),
+		mk("Processor.Limit", func(n int) func() {
+			c := 0
+			w := fun.Processor[int](func(context.Context, int) error { c++; return fmt.Errorf("run %d", c) }).Limit(n)
+			return func() { _ = w(bg, 1) }
+		}),
+		mk("Producer.Limit", func(n int) func() {
+			c := 0
+			w := fun.Producer[int](func(context.Context) (int, error) { c++; return c, nil }).Limit(n)
+			return func() { _, _ = w(bg) }
+		}),
+		mk("Future.Limit", func(n int) func() {
+			c := 0
+			w := fun.Future[[4]int](func() [4]int { c++; return [4]int{c, c, c, c} }).Limit(n)
+			return func() { _ = w() }
+		}),
+	}}
+}
+
+// Broker.Stats whose context ends while the request is IN FLIGHT: accepted by the broker's main
+// loop, result not yet delivered.  The window is widened through the public API only: the
+// distributor's length function (called by the main loop to fill BufferDepth) parks until the
+// Stats context is done.
+func brokerInflightEnv() env {
+	round := func() {
+		ctx, cancel := context.WithCancel(context.Background())
+		defer cancel()
+		statsCtx, statsCancel := context.WithCancel(ctx)
+		defer statsCancel()
+		entered := make(chan struct{})
+		once := &sync.Once{}
+		dist := pubsub.MakeDistributor(
+			func(context.Context, int) error { return nil },
+			func(ctx context.Context) (int, error) { <-ctx.Done(); return 0, ctx.Err() },
+			func() int {
+				once.Do(func() { close(entered) })
+				<-statsCtx.Done()
+				time.Sleep(2 * time.Millisecond) // let the caller return first
+				return 7
+			},
+		)
+		b := pubsub.MakeDistributorBroker(ctx, dist, pubsub.BrokerOptions{})
+		result := make(chan pubsub.BrokerStats, 1)
+		go func() { result <- b.Stats(statsCtx) }()
+		select {
+		case <-entered:
+		case <-time.After(5 * time.Second):
+			return
+		}
+		statsCancel() // the request is in flight: abandon it
+		select {
+		case <-result:
+		case <-time.After(5 * time.Second):
+		}
+		time.Sleep(6 * time.Millisecond) // the broker goroutine delivers its (late) result
+	}
+	return env{typ: "Broker-inflight", ops: []op{
+		{name: "Stats(cancelled in flight)", sig: "Broker.Stats", custom: func(rounds int) {
+			for r := 0; r < rounds; r++ {
+				round()
+			}
+		}},
+	}}
+}
+
 var envs = map[string]func() env{
-	"Queue-limited":    func() env { return queueEnv("limited") },
-	"Queue-unlimited":  func() env { return queueEnv("unlimited") },
-	"Deque-capacity":   func() env { return dequeEnv("capacity") },
-	"Deque-unlimited":  func() env { return dequeEnv("unlimited") },
-	"WaitGroup":        waitGroupEnv,
-	"Collector":        collectorEnv,
-	"Synchronized":     synchronizedEnv,
-	"Atomic":           atomicEnv,
-	"Once":             onceEnv,
-	"Map":              mapEnv,
-	"Pool":             poolEnv,
-	"Set-unordered":    func() env { return setEnv("unordered") },
-	"Set-ordered":      func() env { return setEnv("ordered") },
-	"Wrappers":         wrappersEnv,
-	"Broker-channel":   func() env { return brokerEnv("channel") },
-	"Broker-queue":     func() env { return brokerEnv("queue") },
-	"Broker-deque":     func() env { return brokerEnv("deque") },
+	"Queue-limited":   func() env { return queueEnv("limited") },
+	"Queue-unlimited": func() env { return queueEnv("unlimited") },
+	"Deque-capacity":  func() env { return dequeEnv("capacity") },
+	"Deque-unlimited": func() env { return dequeEnv("unlimited") },
+	"WaitGroup":       waitGroupEnv,
+	"Collector":       collectorEnv,
+	"Synchronized":    synchronizedEnv,
+	"Atomic":          atomicEnv,
+	"Once":            onceEnv,
+	"Map":             mapEnv,
+	"Pool":            poolEnv,
+	"Set-unordered":   func() env { return setEnv("unordered") },
+	"Set-ordered":     func() env { return setEnv("ordered") },
+	"Wrappers":        wrappersEnv,
+	"Limit":           limitEnv,
+	"Broker-inflight": brokerInflightEnv,
+	"Broker-channel":  func() env { return brokerEnv("channel") },
+	"Broker-queue":    func() env { return brokerEnv("queue") },
+	"Broker-deque":    func() env { return brokerEnv("deque") },
 }
 
 // ---------------------------------------------------------------- one scenario (child process)
@@ -470,9 +641,9 @@ type Scenario struct {
 }
 
 type childResult struct {
-	CallsA int `json:"calls_a"`
-	CallsB int `json:"calls_b"`
-	Panics int `json:"panics"`
+	CallsA int  `json:"calls_a"`
+	CallsB int  `json:"calls_b"`
+	Panics int  `json:"panics"`
 	Hung   bool `json:"hung"`
 }
 
@@ -497,6 +668,19 @@ func runChild(sc Scenario) {
 	if a == nil || b == nil {
 		fmt.Fprintln(os.Stderr, "unknown op", sc.A, sc.B)
 		os.Exit(2)
+	}
+	if a.custom != nil {
+		done := make(chan struct{})
+		go func() { a.custom(sc.Iters); close(done) }()
+		res := childResult{CallsA: sc.Iters, CallsB: sc.Iters}
+		select {
+		case <-done:
+		case <-time.After(60 * time.Second):
+			res.Hung = true
+		}
+		out, _ := json.Marshal(res)
+		fmt.Println(string(out))
+		os.Exit(0)
 	}
 	var res childResult
 	var mu sync.Mutex
@@ -648,7 +832,7 @@ func main() {
 		for k := 0; k < 8; k++ {
 			s := sc
 			s.ID = k
-			if s.Iters < 2000 {
+			if s.Iters < 2000 && s.Type != "Broker-inflight" {
 				s.Iters = 2000
 			}
 			scenarios = append(scenarios, s)
@@ -674,7 +858,7 @@ func main() {
 				e := envs[t]()
 				for i := range e.ops {
 					for j := i; j < len(e.ops); j++ {
-						if (e.ops[i].solo || e.ops[j].solo) && i != j {
+						if (e.ops[i].solo || e.ops[j].solo || e.ops[i].custom != nil || e.ops[j].custom != nil) && i != j {
 							continue
 						}
 						it := iters
@@ -686,6 +870,12 @@ func main() {
 						}
 						if strings.HasPrefix(t, "Broker") {
 							it = iters / 6
+						}
+						if t == "Limit" {
+							it = iters * 10
+						}
+						if t == "Broker-inflight" {
+							it = run.Pick(12, 60)
 						}
 						scenarios = append(scenarios, Scenario{ID: id, Type: t, A: e.ops[i].name, B: e.ops[j].name, Iters: it, Procs: p, G: 4})
 						id++
